@@ -19,10 +19,13 @@ Trace == ndJsonDeserialize("trace.ndjson")
 Sig(kind, class, e) == [prop |-> "C11", kind |-> kind, class |-> class, scn |-> e.scn, line |-> l]
 Div(what, class, e) == [what |-> what, class |-> class, scn |-> e.scn, line |-> l]
 
+\* successful redeems per recipient class (vacuity floors)
+Bump(f, c) == IF c \in DOMAIN f THEN [f EXCEPT ![c] = @ + 1] ELSE [x \in DOMAIN f \cup {c} |-> IF x = c THEN 1 ELSE f[x]]
+
 TraceInit ==
     /\ l = 1 /\ viol = {} /\ div = {} /\ nscn = 0
     /\ st = [enabled |-> TRUE] /\ hist = <<>> /\ clk = 0
-    /\ stats = [splits |-> 0, steps |-> 0]
+    /\ stats = [splits |-> 0, steps |-> 0, redeems |-> [none |-> 0]]
 
 \* ---- pure lines
 PureViol(e) ==
@@ -48,8 +51,15 @@ PureDiv(e) ==
       [] OTHER -> {Div("unknown-fn", "-", e)}
 
 \* ---- history lines
+\* is the recorded outcome exactly the one the as-built machine (with the Defects of the cfg) predicts?
+AsBuilt(e) == LET r == MResult(st, e.ev, e.args) IN r.ok = e.ok /\ r.post = e.post
+\* the class of a redeem into an unfinished vesting recipient says so: a known finding is listed with
+\* as-built=yes; a change of behaviour inside that class gives as-built=NO, a different signature
+TraceClass(e) ==
+    StepClass(e, st) \o (IF e.ev = "redeem" /\ e.args.to \in AcctsOf(st) /\ VestingUnfinished(st.acct[e.args.to], e.args.t)
+                         THEN ",as-built=" \o (IF AsBuilt(e) THEN "yes" ELSE "NO") ELSE "")
 StepViol(e) ==
-    LET c == StepClass(e, st) IN
+    LET c == TraceClass(e) IN
     {Sig(k, c, e) : k \in StepBroken(e, st, e.post)}
     \cup {Sig(n, c, e) : n \in BrokenInvariants(e.post) \ BrokenInvariants(st)}
 
@@ -79,7 +89,8 @@ TraceNext ==
                /\ st' = e.post
                /\ viol' = viol \cup StepViol(e)
                /\ div' = div \cup StepDiv(e)
-               /\ stats' = [stats EXCEPT !.steps = @ + 1]
+               /\ stats' = [stats EXCEPT !.steps = @ + 1,
+                                         !.redeems = IF e.ev = "redeem" /\ e.ok THEN Bump(@, StepClass(e, st)) ELSE @]
 
 TraceSpec == TraceInit /\ [][TraceNext]_tvars
 
